@@ -1,0 +1,63 @@
+//go:build verif
+
+// Executable contracts (bounded stand-ins) for package chore. Compiled only with -tags verif.
+package chore
+
+import (
+	"strings"
+
+	"github.com/Masterminds/semver/v3"
+)
+
+// BoundedCopyright (C14): the input is a sequence of version tokens, split at "|" into the
+// versions of up to three successive invocations. Every version that Masterminds/semver
+// accepts is applied in turn (year 2031, 2032, 2033) to a file carrying each marker kind;
+// after the LAST accepted version V all four markers show V (the setup version ALL the digits
+// of V), the year is the last year, every other byte is as before, and applying V once more
+// changes nothing.
+//@ directive[C14] bounded BoundedCopyright quick=5 thorough=7 tokens="4" ".1" ".0" "-rc1" "+b.7" "v" "|"
+
+const boundedFixture = "# OWASP CRS ver.3.3.0\n# Copyright (c) 2021-2024 CRS project. All rights reserved.\nSecComponentSignature \"OWASP_CRS/3.3.0\"\nSecRule ARGS \"@rx x\" \\\n    \"id:1,\\\n    ver:'OWASP_CRS/3.3.0',\\\n    setvar:tx.crs_setup_version=330\"\n# other text 3.3.0 stays\n"
+
+func boundedDigits(v string) string {
+	var b strings.Builder
+	for i := 0; i < len(v); i++ {
+		if v[i] >= '0' && v[i] <= '9' {
+			b.WriteByte(v[i])
+		}
+	}
+	return b.String()
+}
+
+func BoundedCopyright(in string) string {
+	text := []byte(boundedFixture)
+	last, lastYear := "", ""
+	years := []string{"2031", "2032", "2033"}
+	n := 0
+	for _, v := range strings.Split(in, "|") {
+		if n >= len(years) {
+			break
+		}
+		if _, err := semver.NewVersion(v); err != nil {
+			continue // the command rejects it (validateSemver)
+		}
+		out, err := updateRules(v, years[n], text)
+		if err != nil {
+			return "unexpected error: " + err.Error()
+		}
+		text, last, lastYear = out, v, years[n]
+		n++
+	}
+	if last == "" {
+		return ""
+	}
+	want := "# OWASP CRS ver." + last + "\n# Copyright (c) 2021-" + lastYear + " CRS project. All rights reserved.\nSecComponentSignature \"OWASP_CRS/" + last + "\"\nSecRule ARGS \"@rx x\" \\\n    \"id:1,\\\n    ver:'OWASP_CRS/" + last + "',\\\n    setvar:tx.crs_setup_version=" + boundedDigits(last) + "\"\n# other text 3.3.0 stays\n"
+	if string(text) != want {
+		return "after the sequence the file is " + strings.ReplaceAll(string(text), "\n", "\\n")
+	}
+	again, err := updateRules(last, lastYear, text)
+	if err != nil || string(again) != string(text) {
+		return "repeating the last invocation changes the file"
+	}
+	return ""
+}
